@@ -107,7 +107,10 @@ func c12RunParse(s c12Scn) (mc.Result, int) {
 		for _, sdb := range dbs {
 			for _, r := range readers {
 				runs++
-				if f := c12ParseRun(data, cmds, ends, r.buf, &fragReader{data: data, oneByte: r.one}, st, sdb); f != nil {
+				rr, stt, sd := r, st, sdb
+				if f := c12Guard(func() *c12Fail {
+					return c12ParseRun(data, cmds, ends, rr.buf, &fragReader{data: data, oneByte: rr.one}, stt, sd)
+				}); f != nil {
 					v := s
 					v.Start, v.StartDb, v.Buf, v.Frag = st, sdb, r.buf, "whole"
 					if r.one {
@@ -237,7 +240,7 @@ func c12EncodeTyped(wsize int) *c12Fail {
 }
 
 func c12RunTyped(s c12Scn) mc.Result {
-	if f := c12EncodeTyped(s.Buf); f != nil {
+	if f := c12Guard(func() *c12Fail { return c12EncodeTyped(s.Buf) }); f != nil {
 		f.detail["stream_shape"] = "typed"
 		return mc.Violation(f.clause, "C12:encode-typed:"+f.kind, f.detail)
 	}
